@@ -85,6 +85,11 @@ type trInFlow struct {
 }
 
 func (f *trInFlow) newLimit(n uint32) uint32 {
+	if n <= f.limit {
+		// Never shrink the window: the BDP estimate may be smaller than a
+		// configured window, and n - f.limit would wrap around.
+		return 0
+	}
 	d := n - f.limit
 	f.limit = n
 	f.updateEffectiveWindowSize()
@@ -131,11 +136,13 @@ type inFlow struct {
 	delta uint32
 }
 
-// newLimit updates the inflow window to a new value n.
-// It assumes that n is always greater than the old limit.
+// newLimit updates the inflow window to a new value n. Values that are not
+// greater than the old limit are ignored: the window never shrinks.
 func (f *inFlow) newLimit(n uint32) {
 	f.mu.Lock()
-	f.limit = n
+	if n > f.limit {
+		f.limit = n
+	}
 	f.mu.Unlock()
 }
 
